@@ -5,10 +5,14 @@ import common, fns, sweeps, crops, labelled
 from common import quiet, canon
 
 PROP = 'C06'
-LEAN_MODULES = ['XyzProofs.Props.C06']
+LEAN_MODULES = ['XyzProofs.Props.C06', 'XyzProofs.Refine.Forwarding']
 THEOREMS = ['ToDs.toDs_eq_labelLinear', 'Crop.c06_runner_eq_direct', 'Crop.c06_df_eq_direct', 'Crop.c06_store_eq_direct',
-            'Crop.c06_reload_irrelevant', 'Crop.c04_reapLinear_full']
-ANCHORS = ['harvestDefersCleanup', 'samplesDefersCleanup', 'cleanUpDefault', 'isReady', 'sowerGetsExtra', 'sowerFlush']
+            'Crop.c06_reload_irrelevant', 'Crop.c04_reapLinear_full',
+            # the direct runs the reaps are compared with: what the farmers forward (translated flow records, anchors_flow)
+            'Forwarding.harvest_forwards', 'Forwarding.label_forwards', 'Forwarding.chain_run_combos', 'Forwarding.chain_run_cases',
+            'Forwarding.run_keeps_descriptions']
+ANCHORS = ['harvestDefersCleanup', 'samplesDefersCleanup', 'cleanUpDefault', 'isReady', 'sowerGetsExtra', 'sowerFlush',
+           'flowHarvestCombos', 'flowHarvestCases', 'flowLabel', 'flowRunCombos', 'flowRunCases', 'flowComboToDs', 'flowCaseToDs']
 RULE = ("Runner / Harvester / Sampler crops: runner descriptions as in C03 (1-3 outputs, internal dims from var_coords or "
         "constants, constants that are/are not dims, resources, attrs, to_df), grids and case lists with batching and "
         "shuffle as in C04, harvester with an existing store (none / disjoint / overlapping) and each overwrite policy, "
